@@ -9,7 +9,7 @@ from pyvc.util import native_file
 from . import textmodel
 
 PROPERTY = 'C15'
-UNITS = ['C15', 'C06']
+UNITS = ['C15', 'C06', 'C07']       # C07: only UnlessCallback.__call__ (keyword retyping must not depend on the buffer kind)
 TRUSTED = list(textmodel.TRUSTED) + ['dataclass semantics: TextSlice(text, start, end) stores the three fields and then runs __post_init__ (verified)']
 ASSUMPTIONS = ['equality of whole trees across representations needs parser determinism (C02): not decided here',
                're matching bounded by endpos: assumed scanner contract (C06/C07)']
@@ -17,7 +17,12 @@ ASSUMPTIONS = ['equality of whole trees across representations needs parser dete
 BOUNDED = [dict(name='crosscheck.textslice', function='TextSlice.__post_init__/__len__/count/rindex, windows through Lark.lex (shared with C06)',
                 code=native_file('bounded/c15_textslice.py'),
                 bound={'quick': 'all texts over {a, newline} of length <= 5 x all (start, end) in [-len-1, len+1] incl. None', 'thorough': 'length <= 7'},
-                note='CPython cross-check of the executable contracts; not counted as obligations')]
+                note='CPython cross-check of the executable contracts; not counted as obligations'),
+           dict(name='standin.representations-agree', function='the pipeline around the kernels: Lark.parse / lex / scan and on_error recovery for str, bytes and TextSlice windows on lalr/basic, lalr/contextual, earley/basic, earley/dynamic',
+                code=native_file('bounded/c15_agree.py'),
+                bound={'quick': '3 grammars (keywords vs identifiers, strings/comments, ignored newlines) x 4 engines x all texts of length <= 4 over 5-6 characters, each as str, bytes and 4 TextSlice windows (str and bytes buffers); 4 recovery texts; 4 lex/scan texts',
+                       'thorough': 'texts of length <= 5'},
+                note='bounded: stands in for the unverified pipeline stages; never counted as proved')]
 
 
 def _replay(model):
